@@ -1,8 +1,8 @@
 (* C16 - constraint-to-penalty conversions penalise exactly the violating assignments.
    Only statements; every proof is `exact <lemma>`; examples by computation. *)
 From Coq Require Import List ZArith QArith Qcanon Bool Arith.
-From Dimod Require Import Base.Util Model.Poly Model.Comb Model.Penalty
-  Proofs.PolyFacts Proofs.CombFacts Proofs.PenaltyEq Proofs.PenaltySlack.
+From Dimod Require Import Base.Util Model.Poly Model.Comb Model.Penalty Model.CqmBqm Model.ChkC16
+  Proofs.PolyFacts Proofs.CombFacts Proofs.PenaltyEq Proofs.PenaltySlack Proofs.CqmBqmFacts Proofs.ChkC16Facts.
 Import ListNotations.
 
 (* ================================================================== *)
@@ -93,6 +93,46 @@ Theorem C16_inequality_penalty_gap :
 Proof. exact plan_inequality_sound. Qed.
 Print Assumptions C16_inequality_penalty_gap.
 
+(* cross_zero=True (BQM): one more slack bit of weight lb_c when lb_c > 0; what the objective then admits *)
+Theorem C16_cross_zero_gap :
+  forall (a : list Z) (const lb ub : Z) (x : list bool) (ubc : Z) (cs : list Z),
+    length x = length a -> (0 < lbc_of a const lb)%Z ->
+    plan_inequality_cz true a const lb ub = Slack ubc cs ->
+    let A := dot a x in
+    let allowed := ((lb <= A + const <= ub) \/ (0 <= A <= ubc - lbc_of a const lb))%Z in
+    (allowed -> exists s, length s = length cs /\ ineq_penalty a x cs s ubc = 0%Z) /\
+    (~ allowed -> forall s, length s = length cs -> (1 <= ineq_penalty a x cs s ubc)%Z).
+Proof. exact cross_zero_plan_sound. Qed.
+Print Assumptions C16_cross_zero_gap.
+
+Theorem C16_cross_zero_inactive :
+  forall (a : list Z) (const lb ub : Z),
+    plan_inequality_cz false a const lb ub = plan_inequality a const lb ub /\
+    ((lbc_of a const lb <= 0)%Z -> plan_inequality_cz true a const lb ub = plan_inequality a const lb ub).
+Proof. exact (fun a const lb ub => conj (plan_inequality_cz_off a const lb ub) (plan_inequality_cz_nonpositive a const lb ub)). Qed.
+Print Assumptions C16_cross_zero_inactive.
+
+(* the docstring says cross_zero "adds zero to the domain"; it admits all of 0..ub_c-lb_c:
+   [1; 7], 5 <= sum <= 8: sum = 1 gets penalty 0 *)
+Theorem C16_cross_zero_admits_only_zero_refuted :
+  exists (a : list Z) (const lb ub : Z) (x : list bool) (ubc : Z) (cs : list Z) (s : list bool),
+    length x = length a /\
+    plan_inequality_cz true a const lb ub = Slack ubc cs /\ length s = length cs /\
+    ~ (lb <= dot a x + const <= ub)%Z /\ dot a x <> 0%Z /\
+    ineq_penalty a x cs s ubc = 0%Z.
+Proof. exact cross_zero_admits_only_zero_refuted. Qed.
+Print Assumptions C16_cross_zero_admits_only_zero_refuted.
+
+(* penalization_method='unbalanced': exactly lam0 * sum - ub_c + lam1 * (sum - ub_c)^2 is added (no gap claim) *)
+Theorem C16_unbalanced_adds_exactly :
+  forall (py : bool) (vt : vartype) (terms : list lterm) (lam0 lam1 ubc : Qc) (p : poly) (s : sample),
+    vt = BINARY \/ vt = SPIN -> respects (cvt vt) s ->
+    energy (add_unbalanced py vt terms lam0 lam1 ubc p) s
+    = (energy p s + lam0 * lin_sum terms s - ubc
+       + lam1 * ((lin_sum terms s - ubc) * (lin_sum terms s - ubc)))%Qc.
+Proof. exact add_unbalanced_exact. Qed.
+Print Assumptions C16_unbalanced_adds_exactly.
+
 (* ================================================================== *)
 (* (3) DQM slack variants *)
 
@@ -125,6 +165,27 @@ Theorem C16_dqm_linear_values_exact :
   forall U : Z, (0 <= U)%Z -> forall t, In t (choice_sums (dqm_linear_values U)) <-> (0 <= t <= U)%Z.
 Proof. exact dqm_linear_exact. Qed.
 Print Assumptions C16_dqm_linear_values_exact.
+
+(* at the level of DQM samples (one case per variable): the bounds computed as if the cases were independent
+   0/1 variables stay sound, and the log2 / linear slack variables give the gap *)
+Theorem C16_dqm_inequality_gap :
+  forall (m : slack_method) (terms : list dterm) (const lb ub : Z) (sel : nat -> nat),
+    m <> Log10 ->
+    let a := map snd terms in
+    let A := dqm_sum terms sel in
+    let feasible := (lb <= A + const <= ub)%Z in
+    (sum_neg a <= A <= sum_pos a)%Z /\
+    match plan_inequality a const lb ub with
+    | Skip => feasible
+    | Infeasible => ~ feasible
+    | Equality ubc => feasible <-> A = ubc
+    | Slack ubc _ =>
+        let U := (ubc - lbc_of a const lb)%Z in
+        (feasible -> exists sl, In sl (choice_sums (dqm_slack_values m U)) /\ pen_val A sl ubc = 0%Z) /\
+        (~ feasible -> forall sl, In sl (choice_sums (dqm_slack_values m U)) -> (1 <= pen_val A sl ubc)%Z)
+    end.
+Proof. exact dqm_inequality_gap. Qed.
+Print Assumptions C16_dqm_inequality_gap.
 
 (* log10: a violating assignment whose penalty vanishes (terms [-4; 15], 0 <= sum <= 15, slack 19) *)
 Theorem C16_dqm_log10_gap_refuted :
@@ -170,9 +231,8 @@ Theorem C16_inverter_in_domain :
 Proof. exact invert_var_in_domain. Qed.
 Print Assumptions C16_inverter_in_domain.
 
-(* partial: stated on the penalties (in units of the multiplier) of the substituted integer
-   constraints, not on the assembled BQM; the assembly is tied by the correspondence check *)
-Theorem C16_cqm_to_bqm_gap_partial :
+(* the integer penalties of the substituted constraints (units of the multiplier) *)
+Theorem C16_converted_constraints_penalty_gap :
   forall (ks : list zcon) (x : list bool),
     Forall zcon_accepted ks -> Forall (fun k => length x = length (zcon_coeffs k)) ks ->
     (Forall (fun k => zcon_feasible k x) ks ->
@@ -180,7 +240,53 @@ Theorem C16_cqm_to_bqm_gap_partial :
     (Exists (fun k => ~ zcon_feasible k x) ks ->
        forall ss, Forall2 (fun k s => length s = length (zcon_slack k)) ks ss -> (1 <= total_penalty ks x ss)%Z).
 Proof. exact cqm_penalties_gap_partial. Qed.
-Print Assumptions C16_cqm_to_bqm_gap_partial.
+Print Assumptions C16_converted_constraints_penalty_gap.
+
+(* the assembled BQM (Model/CqmBqm.v: objective through _qm_to_bqm, then one penalty per constraint with
+   its slack bits): for EVERY 0/1 sample  E_bqm(s) = objective(inverter(s)) + multiplier * sum of squared residuals *)
+Theorem C16_cqm_to_bqm_energy :
+  forall (E : encoding) (lam : Qc) (obj : poly) (cons : list ccon) (s : sample),
+    respects (cvt BINARY) s -> (forall v, p_quad (E v) = []) ->
+    energy (cqm_bqm E lam obj cons) s
+    = (energy obj (invert E s) + lam * qsum (map (fun k => con_penalty_q E k s) cons))%Qc.
+Proof. exact cqm_bqm_energy. Qed.
+Print Assumptions C16_cqm_to_bqm_energy.
+
+(* each squared residual is the integer penalty of the constraint's plan, read off the sample's bits *)
+Theorem C16_cqm_to_bqm_residual_is_integer_penalty :
+  forall (E : encoding) (k : ccon) (s : sample),
+    con_wf E k = true -> binary01 s ->
+    con_penalty_q E k s = zq (zcon_penalty (con_zcon E k) (xbits E k s) (sbits k s)).
+Proof. exact con_penalty_q_eq. Qed.
+Print Assumptions C16_cqm_to_bqm_residual_is_integer_penalty.
+
+(* integer-coefficient linear constraints (con_wf), no refused constraint, multiplier > 0, slack labels
+   pairwise distinct and unused by the encoding: every BQM sample costs at least the objective of its
+   image, at least the multiplier more if the image violates a constraint, and if the image is feasible
+   the slack bits can be reset so that the energy IS the objective (so the minimum over slack is attained there) *)
+Theorem C16_cqm_to_bqm_gap :
+  forall (E : encoding) (lam : Qc) (obj : poly) (cons : list ccon),
+    cqm_wf E cons -> slack_separated E cons -> (0 < lam)%Qc ->
+    forall s, binary01 s ->
+      (energy obj (invert E s) <= energy (cqm_bqm E lam obj cons) s)%Qc /\
+      (Exists (fun k => ~ con_satisfied_at k (invert E s)) cons ->
+         (energy obj (invert E s) + lam <= energy (cqm_bqm E lam obj cons) s)%Qc) /\
+      (Forall (fun k => con_satisfied_at k (invert E s)) cons ->
+         exists s', binary01 s' /\
+                    (forall v, ~ In v (slack_labels cons) -> s' v = s v) /\
+                    (forall v, invert E s' v = invert E s v) /\
+                    energy (cqm_bqm E lam obj cons) s' = energy obj (invert E s)).
+Proof. exact cqm_bqm_gap. Qed.
+Print Assumptions C16_cqm_to_bqm_gap.
+
+(* the side condition the check evaluates implies the separation hypothesis *)
+Theorem C16_separated_check_sound :
+  forall (vars : list (label * cvar)) (tab : list (label * poly)) (ks : list ccon),
+    separated_b vars (enc_of tab) ks = true ->
+    (forall e, In e tab -> In (fst e) (map fst vars)) ->
+    slack_separated (enc_of tab) ks.
+Proof. exact separated_b_sound. Qed.
+Print Assumptions C16_separated_check_sound.
 
 (* ================================================================== *)
 Example C16_ex_coeffs : slack_coeffs 10 = [1; 2; 4; 3]%Z.
